@@ -52,7 +52,17 @@ func (g *Exec) pop()            { g.scopes = g.scopes[:len(g.scopes)-1] }
 func (g *Exec) declare(v *evar) { g.scopes[len(g.scopes)-1] = append(g.scopes[len(g.scopes)-1], v) }
 func (g *Exec) fresh(p string) string {
 	g.nvar++
+	if g.R.IntN(4) == 0 {
+		p = RandIdent(g.R) // keyword-like, long, $/_ names; followed by the counter they stay unique identifiers
+	}
 	return fmt.Sprintf("%s%d", p, g.nvar)
+}
+
+func (g *Exec) numLit() *Node {
+	if g.R.IntN(3) == 0 {
+		return Num(RandNum(g.R))
+	}
+	return Num(execNums[g.R.IntN(len(execNums))])
 }
 
 func (g *Exec) vars(t etype, needMutable bool) []*evar {
@@ -90,6 +100,10 @@ var execStrs = []strLit{
 }
 
 func (g *Exec) strLit() *Node {
+	if g.R.IntN(2) == 0 {
+		q := []byte{0, 0, '"', '\''}[g.R.IntN(4)]
+		return &Node{K: KStr, Text: RandStrBody(g.R, q), Quote: q}
+	}
 	s := execStrs[g.R.IntN(len(execStrs))]
 	return &Node{K: KStr, Text: s.body, Quote: s.quote}
 }
@@ -97,6 +111,9 @@ func (g *Exec) strLit() *Node {
 func (g *Exec) tpl() *Node {
 	bodies := []string{"", "t", "two words", "line1\nline2", "trail  \n  next", "esc\\` tick  \n  after", "a\\`b", "sl\\\\", "it's \"q\"", "// not", "$", "{x}", "tab\\there"}
 	b := bodies[g.R.IntN(len(bodies))]
+	if g.R.IntN(2) == 0 {
+		b = RandTplBody(g.R)
+	}
 	if v := g.pickVar(tNum, false); v != nil && g.R.IntN(3) == 0 {
 		b = "v=${" + v.name + "} " + b
 	}
@@ -109,11 +126,11 @@ func (g *Exec) num(d int) *Node {
 		if v := g.pickVar(tNum, false); v != nil && g.R.IntN(2) == 0 {
 			return Id(v.name)
 		}
-		return Num(execNums[g.R.IntN(len(execNums))])
+		return g.numLit()
 	}
 	switch x := g.R.IntN(100); {
 	case x < 12:
-		return Num(execNums[g.R.IntN(len(execNums))])
+		return g.numLit()
 	case x < 28:
 		if v := g.pickVar(tNum, false); v != nil {
 			return Id(v.name)
